@@ -8,7 +8,7 @@
    the real code took.  Every theorem below is about all reachable states / all accepted steps. *)
 From Coq Require Import List NArith Bool Arith Permutation.
 From V Require Import gen.Consts model.Fetcher proofs.Fetcher proofs.FetcherDet proofs.FetcherSched
-  proofs.FetcherProps proofs.FetcherProps2.
+  proofs.FetcherProps proofs.FetcherProps2 proofs.FetcherLive proofs.FetcherExamples.
 Import ListNotations.
 Open Scope N_scope.
 
@@ -142,3 +142,33 @@ Theorem multi_key_in_range_refuted :
     In e (ongoing post) /\ ~ In e (ongoing pre) /\ ~ queued pre (og_kth e) /\ r < kdist (og_key e) /\
     KnownFastPathMulti pre h inc held.
 Proof. exact multi_key_in_range_refuted_lemma. Qed.
+
+(* progress.  U = a finite universe of record versions, one per key; `rounds h x init tr` = the
+   adverts of holder h containing x in history tr.  Fairness premises (model/Fetcher.v): at every
+   such round x is still unheld, in range and not beyond the fullness limit, no fetch has timed out,
+   the queued entry for (x, h) has not passed PENDING_TIMEOUT, the store holds only universe
+   versions; between rounds stored records stay stored and every fetch in flight after a round is
+   stored by the next one.  Everything else (other holders' adverts, notifications, range and
+   fullness updates, clock advances, scheduling order) is arbitrary.
+   As long as x is not in flight after a round, that round leaves MAX_PARALLEL_FETCH other unheld
+   records in flight, so the number of such rounds is bounded by the number of unheld records: *)
+Theorem liveness_bound : forall U h x tr,
+  valid tr -> NoDup (map fst U) -> adverts_in U tr -> In x U ->
+  let rs := rounds h x init tr in
+  Forall (fair_round U h x) rs -> fair_chain rs ->
+  (forall r, In r rs -> ~ inflight (r_post r) x) ->
+  match rs with
+  | [] => True
+  | r1 :: _ => (MAXn * length rs + 1 <= unheld_count U (r_held r1))%nat
+  end.
+Proof. exact liveness_bound_lemma. Qed.
+
+(* hence after ceil(unheld / MAX_PARALLEL_FETCH) fair rounds x has been scheduled *)
+Theorem liveness : forall U h x tr,
+  valid tr -> NoDup (map fst U) -> adverts_in U tr -> In x U ->
+  let rs := rounds h x init tr in
+  Forall (fair_round U h x) rs -> fair_chain rs ->
+  forall r1 rest, rs = r1 :: rest ->
+  (unheld_count U (r_held r1) <= MAXn * length rs)%nat ->
+  exists r, In r rs /\ inflight (r_post r) x.
+Proof. exact liveness_lemma. Qed.
